@@ -160,3 +160,68 @@ FACETS = [
     Facet('torch/all-subsystems', f_entropy, strategy=lambda t: st_entropy('torch', 1, 4), examples={'quick': 150, 'thorough': 6000}, shards={'quick': 2, 'thorough': 8}, backend='torch'),
     Facet('torch/z2rank', f_z2rank, strategy=lambda t: st_z2rank('torch'), examples={'quick': 500, 'thorough': 20000}, backend='torch'),
 ]
+
+
+def f_history(case):
+    """one state object: entropy queried, state evolved in place (whole-register and sub-register maps / rotations, measurement), queried again...
+    every answer must be the entropy of the *current* state."""
+    be, N = case['be'], case['N']
+    Bk = B.backend(be)
+    S, c = C.dec_state(be, case['state'])
+    L, K, r = C.state_rows(case['state'])
+    region = case['region']
+    m = np.zeros(N, dtype=bool); m[region] = True
+    nq = 0
+    for i, stp in enumerate(case['steps']):
+        t = stp['t']
+        if t == 'entropy':
+            G = ref.RefGroup(L[r:N], K[r:N])
+            exp = len(region) - G.restricted_dim(m)
+            v = _ent(be, S, region, 'indices', N)
+            nq += 1
+            check(abs(v - exp) < 1e-9, 'step %d: entropy(%s) = %r expected %r after the history %s' % (i, region, v, exp, [x['t'] for x in case['steps'][:i]]), 'history-entropy')
+        elif t == 'print':
+            repr(S); S.tokenize()
+        elif t == 'transform':
+            q = stp['qubits']
+            small = C.dec_clifford(stp['rows'])
+            big = small.embed(q, N)
+            if len(q) == N and not stp['usemask']:
+                S.transform_by(Bk.cmap(small))
+            else:
+                S.transform_by(Bk.cmap(small), Bk.mask(q, N))
+            L, K = big.apply(L, K)
+        elif t == 'rotate':
+            q = stp['qubits']
+            gl, gk = ref.parse(stp['gen'])
+            GL = ref.embed_letters(gl, q, N)
+            if len(q) == N and not stp['usemask']:
+                S.rotate_by(Bk.pauli(gl, gk))
+            else:
+                S.rotate_by(Bk.pauli(gl, gk), Bk.mask(q, N))
+            L, K = ref.rotate_rule(L, K, GL, gk)
+        elif t == 'set_r':
+            r = stp['r'] % (N + 1)
+            S.set_r(r)
+    ts = [x['t'] for x in case['steps']]
+    ent = [i for i, x in enumerate(ts) if x == 'entropy']
+    nt = len(ent) >= 2 and any(x in ('transform', 'rotate', 'set_r') for x in ts[ent[0]:ent[-1]]) and 0 < len(region) < N
+    return {'nt': nt, 'labels': ['N=%d' % N, 'queries=%d' % min(nq, 5)]}
+
+
+def st_history(be, hiN):
+    def inner(N):
+        sub = st.integers(1, N).flatmap(lambda n: st.tuples(gen.st_subset(N, n), st.just(n)))
+        step = st.one_of(
+            st.just({'t': 'entropy'}), st.just({'t': 'entropy'}), st.just({'t': 'print'}),
+            sub.flatmap(lambda t: st.fixed_dictionaries({'t': st.just('transform'), 'qubits': st.just(t[0]), 'rows': gen.st_clifford_rows(min(t[1], 3)) if t[1] <= 3 else gen.st_clifford_rows(t[1]), 'usemask': st.booleans()})),
+            sub.flatmap(lambda t: st.fixed_dictionaries({'t': st.just('rotate'), 'qubits': st.just(t[0]), 'gen': gen.st_herm(t[1], nonidentity=True), 'usemask': st.booleans()})),
+            st.fixed_dictionaries({'t': st.just('set_r'), 'r': st.integers(0, 6)}))
+        return st.fixed_dictionaries({'be': st.just(be), 'N': st.just(N), 'state': gen.st_state(N),
+                                      'region': st.lists(st.booleans(), min_size=N, max_size=N).map(lambda b: [i for i, x in enumerate(b) if x] if 0 < sum(b) < N else [0]),
+                                      'steps': st.lists(step, min_size=1, max_size=7).map(lambda xs: [{'t': 'entropy'}] + xs + [{'t': 'entropy'}])})
+    return st.integers(2, hiN).flatmap(inner)
+
+
+FACETS.append(Facet('np/state-histories', f_history, strategy=lambda t: st_history('np', 4), examples={'quick': 800, 'thorough': 40000}, shards={'quick': 2, 'thorough': 8}))
+FACETS.append(Facet('torch/state-histories', f_history, strategy=lambda t: st_history('torch', 4), examples={'quick': 300, 'thorough': 10000}, shards={'quick': 1, 'thorough': 4}, backend='torch'))
